@@ -82,10 +82,22 @@ def ownersOf (g : BuildGraph) (inputs : Nat → List Bytes) (files : List Bytes)
 def ownersCmd (g : BuildGraph) (inputs : Nat → List Bytes) (files : List Bytes) : List Bytes :=
   printSorted g (ownersOf g inputs files)
 
-/-- `grog changes --dependents=transitive`, graph part: owners of the changed files and all their
-    descendants that are targets, de-duplicated (`uniqueLabels`) -/
-def changesOf (g : BuildGraph) (owners : List Nat) : List Nat :=
-  (owners.flatMap (fun o => o :: ((descendantsV g.edges o).nodes.filter
-      (fun i => match g.nodes[i]? with | some n => n.isTarget | none => false)))).eraseDups
+/-- the `uniqueLabels` loop of `grog changes`: keep the first occurrence of every node -/
+def dedupNodes (l : List Nat) : List Nat :=
+  l.foldl (fun acc x => if acc.contains x then acc else acc ++ [x]) []
+
+def BuildGraph.isTargetAt (g : BuildGraph) (i : Nat) : Bool :=
+  match g.nodes[i]? with | some n => n.isTarget | none => false
+
+/-- `grog changes --since=… --dependents=none|transitive` after the changed files have been determined
+    (package definition files unchanged): owners of the changed files, with `transitive` also all their
+    descendants that are targets; de-duplicated, filtered, printed sorted. -/
+def changesCmd (g : BuildGraph) (s : Selector) (h : Host) (inputs : Nat → List Bytes) (files : List Bytes)
+    (transitive : Bool) : List Bytes :=
+  let owners := ownersOf g inputs files
+  let res := if transitive then
+      owners.flatMap (fun o => o :: (descendantsV g.edges o).nodes.filter g.isTargetAt)
+    else owners
+  printSorted g ((dedupNodes res).filter (g.matchAt s h))
 
 end Grog
